@@ -97,7 +97,7 @@ static void ik_free(const Args &a) {
     Obj &o = obj_get(id, ("isapkey." + sc).c_str());
     io.free_(o.mem);
     Ev ev("isapkey.free"); ev.s("scheme", sc).n("obj", id);
-    if (a.num("dump_raw")) ev.b("raw", (const uint8_t *)o.mem, o.size);
+    if (a.num("dump_raw")) ev.n("wipe", a.num("wipe")).b("raw", (const uint8_t *)o.mem, o.size);
     ev.emit(); obj_del(id);
 }
 void reg_isap() {
